@@ -5,7 +5,10 @@ CFG = {
     "drivers": ["C01", "C01Ops"],
     "stateful": True,
     "trivial_prefix": ("-", "bytes="),
-    "rule": "frame histories on a real Vaxis over the fake console: corpus scenarios (corpus/C01/*.ops: minimised past failures F01, F02, F113) first; "
+    "rule": "two streams. C01Ops (op-level): every drawing call is an op line (window chains with New / struct-literal children, offsets and sizes from -1 to parent+1; "
+            "SetCell/SetStyle/Fill/Clear/Print/PrintTruncate/Println/Wrap with 1-2 Segments, ShowCursor through windows, HideCursor; Render/Refresh/resize; all capability "
+            "combinations), the driver computes buffer and frame through Model.App, histories are replayable (corpus/C01Ops first). C01 (snapshot): "
+            "frame histories on a real Vaxis over the fake console: corpus scenarios (corpus/C01/*.ops: minimised past failures F01, F02, F113) first; "
             "bounded-exhaustive two-frame histories on a 1x4 screen (5 graphemes x 3 styles x positions x Clear/no Clear) and random histories "
             "(<= 8 frames of Clear/Fill/SetCell/SetStyle/Print/ShowCursor/HideCursor, blocks of sixel-flagged cells in a quarter of the histories, "
             "then Render/Refresh/resize; screens up to 8x4 quick, 40x12 thorough; all combinations of rgb/styledUnderlines/explicitWidth/sync/"
@@ -13,21 +16,27 @@ CFG = {
     "trusted_base": ["Spec.Display (reference terminal for the renderer vocabulary), Spec.Sgr, Spec.Tokenize (byte lexer; grapheme "
                      "segmentation by longest match over the run's alphabet)",
                      "uniseg/runewidth character widths are parameters (cw) supplied per run by the real library",
-                     "hooks VerifScreenNext/VerifScreenLast/VerifCellSixel/VerifSixelCell (read-only / constructor of the cell Sixel.Draw places)"],
+                     "hooks VerifScreenNext/VerifScreenLast/VerifCellSixel/VerifSixelCell (read-only / constructor of the cell Sixel.Draw places), VerifC11SetWidthCaps (sets the two width capabilities the fake console cannot negotiate)",
+                     "joins (which graphemes form one cluster when written back to back) is a parameter of the clustering terminal; uniseg is not modelled"],
     "level_text": "Proved for the executable models of render()/writer.Flush and of the drawing API, for all grids, styles, capability sets, width oracles and "
                   "histories: app_history_displays / app_from_start (after EVERY frame of EVERY run of SetCell/SetStyle/Fill/Clear/Print/PrintTruncate/Println/Wrap on "
                   "arbitrary nested windows, ShowCursor/HideCursor, Render/Refresh and terminal size changes in any order, the reference terminal shows exactly the "
                   "screen the C11 window model computes, nothing terminal-specific relied on, terminal at rest), app_first_frame_after_resize (buffers reallocated, "
                   "refresh set, then whatever well-formed grid the terminal shows), app_screen_is_last_write (that screen = the writes of Spec.Window that hit each cell, "
-                  "last wins, never-written blank), app_cursor / app_cursor_always (cursor as last requested after every frame, also after a size change whatever the terminal did with the cursor) / showCursor_position, frame_displays / history_displays_clip (no 'glyph fits' hypothesis since the F02 "
-                  "repair), frame_displays_current, sixel_cell_not_drawn, dropped_image_rewritten, flush_epilogue, cursor_as_requested. Structural tie: the statement "
-                  "skeletons of render/showCursor/advance/Write/WriteString/Flush regenerated from the source equal the pinned transcription (facts_render, facts_writer, "
+                  "last wins, never-written blank), app_cursor / app_cursor_always (cursor as last requested after every frame, also after a size change to ANY size — an empty screen included — whatever the terminal did with the cursor) / showCursor_position, frame_displays / history_displays_clip (no 'glyph fits' hypothesis since the F02 "
+                  "repair), frame_displays_current, sixel_cell_not_drawn, dropped_image_rewritten, flush_epilogue, cursor_as_requested; on a terminal that clusters graphemes (mode 2027): "
+                  "frame_displays_clustering under the explicit hypothesis NoJoinRows (no grapheme of a row joins a later one of that row), render_no_adjacent_join (every frame of the current renderer, "
+                  "image cells included), clustering_terminal_agrees, and no_join_needed (decide: the hypothesis is necessary, finding F112d); stream_*_is_sysStep / oracle_screen_is_model_screen "
+                  "(the op-level stream runs sysStep, and its oracle's reference screen is the model's buffer). Structural tie: the statement "
+                  "skeletons of render/showCursor/advance/Write/WriteString/Flush regenerated from the source — locals printed under their role names, so renaming a local does not alarm — equal the pinned transcription (facts_render, facts_writer, "
                   "render_fully_recognised) and the attribute delta is the interpretation of the extracted tables (attrToks_from_source, penDelta_order). Behavioural tie: "
-                  "token-for-token comparison with the bytes the real code writes; the property itself is evaluated on the real bytes through Spec.Display.",
+                  "token-for-token comparison with the bytes the real code writes, in the op-level stream also cell-for-cell comparison of the buffer Model.App computes from the draw ops with the real next-frame buffer; "
+                  "the property itself is evaluated on the real bytes through Spec.Display, in the op-level stream against the Spec.Window fold of writes (no use of the window model).",
     "level_note": "Left to the application/terminal as explicit hypotheses (each shown necessary by a decide-checked witness): cells given to SetCell/Fill have width >= 0 and an "
                   "explicit width that is 0/correct/(>1 with OSC 66); uniseg's width is the terminal's when the text helpers do not re-measure; the ellipsis has width 1 for "
                   "PrintTruncate; a space has width 1; a visible cursor is inside the screen at Render (Window.ShowCursor does not clip: Witness/C11ShowCursor); after a size "
-                  "change the terminal shows a well-formed grid. Not proved: the cursor clause after a size change to a screen with 0 columns or rows. Validated by correspondence only: "
+                  "change the terminal shows a well-formed grid. On a clustering terminal additionally: no two graphemes of a row join (NoJoinRows; render() writes neighbouring cells back to back — F112d; a CUP between them was evaluated and rejected: it does not help on terminals that cluster against the cell left of the cursor). "
+                  "Known finding F111c: Wrap can put the halves of one cluster (a flag beginning a later Segment) into two cells, which such a terminal shows as one glyph. app_history_displays is stated over the plain terminal. Validated by correspondence only: "
                   "that the Lean loops equal the Go loops beyond their pinned statement structure; screens WITH image cells (oracle treats image cells as don't-care; the "
                   "display theorems assume none). Placement loops of render() are C20's. Spec.Display is a model of a standards-conforming terminal, not a physical one.",
     "assumptions": ["terminal width of a raw-printed grapheme equals Vaxis's characterWidth under the same capability set (C07 width method)",
